@@ -261,3 +261,9 @@ NOT_APPLICABLE = {}
 TIES = {'C01': ['TieSettle'], 'C02': ['TieSettle', 'TieSettleMsg'], 'C03': ['TieOracleMsg'], 'C05': ['TieOracleEnd'], 'C06': ['TieOracleArith', 'TieSettle'], 'C08': ['TieOracleArith', 'TieOracleMsg'], 'C09': ['TieSettleMsg'], 'C10': ['TieSettle', 'TieOracleArith', 'TieSettleMsg'], 'C11': ['TieSettle'], 'C12': ['TieSettleMsg'], 'C13': ['TieSettle', 'TieSettleMsg'], 'C14': ['TieOracleEnd'], 'C15': ['TieOracleArith', 'TieOracleEnd'], 'C16': ['TieFee']}
 for _k, _v in TIES.items():
     PROPS[_k]["ties"] = _v
+
+# state kept outside the multistore (struct fields, package variables) must be accounted for: the theorems rest on
+# "a transaction that is rejected or only simulated leaves no trace" and "every node computes from the store alone"
+for _k in ('C01', 'C02', 'C03', 'C05', 'C08', 'C09', 'C10', 'C11', 'C12', 'C13', 'C06', 'C07'):
+    PROPS[_k].setdefault('inventory', [])
+    PROPS[_k]['inventory'] = list(PROPS[_k]['inventory']) + [('state_sites', 'state_table')]
